@@ -1535,6 +1535,10 @@ func (m *Machine) mapUpdate(mp Map, key, val Value) {
 	c := m.newCell(mp.M.VT)
 	c.Col = mp.M.Col
 	m.store(c, val)
+	if m.writeHook != nil && c.Col != "" && !c.leaf {
+		// inserting a key is a write to the map even if the value has no bytes (map[string]struct{})
+		m.writeHook(c, nil, val)
+	}
 	mp.M.Entries = append(mp.M.Entries, &mapEntry{K: key, V: c})
 }
 
